@@ -1,11 +1,11 @@
 SPECIFICATION Spec
 CONSTANT MaxCalls = 3
 CONSTANT MaxHandles = 2
-CONSTANT KindSet = {"Now", "Raise", "Later", "Give", "GiveLater", "Take"}
-CONSTANT Flags = {TRUE, FALSE}
-CONSTANT Hows = {"ok", "err"}
+CONSTANT KindSet = {"Now", "Later", "Never", "RaiseX", "Give", "GiveLater", "Take"}
+CONSTANT Flags = {FALSE}
+CONSTANT Hows = {"ok", "errx"}
 CONSTANT Reasons = {1}
-CONSTANT NObj = {2}
+CONSTANT NObj = {1}
 CONSTANT Depth = 11
 CONSTRAINT Bound
 VIEW View
